@@ -32,7 +32,7 @@ CLAIMED = {
              design='6 C07', technique='Coq invariant proof over executable model + sanitizer-backed extracted-model/implementation correspondence'),
  'C08': dict(text='Theorems for all 2^24 requested PGNs (one quantifier), every requester and device: addressed requests to a device on the bus are answered with the claim / both PGN lists / product / configuration information '
                   '(payloads equal to reference layouts written from the published definitions) or the handler\'s choice or exactly one NAK to the requester; broadcast requests never originate a NAK; nothing while the claim is '
-                  'pending; dispatch by destination; retry timing of refused information answers.  Tied to the C++ by correspondence; independent reference machine as oracle.',
+                  'pending; dispatch by destination; retry timing of refused information answers; the configuration information reported after SetConfigurationInformation is the reference layout of the configured strings cut to 70 characters (set_conf_info_content).  Tied to the C++ by correspondence; independent reference machine as oracle.',
              note=TB + 'Hypotheses named in Spec/IsoSpec.v (on_bus, driver_accepts, protocol_pgns_single, info_fits); the refuted unhypothesised readings (address above 251, NAK dropped when the queue is full) are machine-checked witnesses.',
              design='6 C08', technique='Coq proof over executable model + extracted-model/implementation correspondence'),
  'C18': dict(text='Theorems for every message history about a Gallina model of tN2kDeviceList (object-id heap with explicit freed state): no use of a freed entry, no index outside Sources[] (the C07 half); at most one entry '
